@@ -4,6 +4,7 @@ import (
 	"fmt"
 	"go/ast"
 	"go/token"
+	"hash/crc32"
 	"path/filepath"
 	"strconv"
 	"strings"
@@ -479,13 +480,16 @@ func parseOptab(repo string) (*optabAST, error) {
 	return t, nil
 }
 
-// encName encodes an ASCII name as a big-endian base-256 natural number
-// (Lean side: Avo.Name).  Kernel evaluation over Lean `String`s is slow, so
-// regenerated tables carry names as numbers; every emitted number is followed
-// by the plain name in a comment where space permits.
+// encName encodes an ASCII name for the Lean side (Avo.Name):
+// bytes·2^40 + len·2^32 + crc32(bytes), big-endian bytes.  The checksum in the
+// low bits carries no meaning; it keeps the Lean kernel's literal hashing
+// (low bits only) from colliding on texts with a common ending.
 func encName(s string) string {
 	if s == "" {
 		return "0"
 	}
-	return "0x" + fmt.Sprintf("%x", []byte(s))
+	if len(s) > 255 {
+		panic("encName: name too long: " + s)
+	}
+	return fmt.Sprintf("0x%x%02x%08x", []byte(s), len(s), crc32.ChecksumIEEE([]byte(s)))
 }
